@@ -23,7 +23,7 @@ echo "--- RUN.txt:"; cat $M/demo/RUN.txt 2>/dev/null
 # demonstration: DEMO_DIR = package dir relative to the repo root, DEMO_RUN = -run regex
 if [ -n "${DEMO_DIR:-}" ]; then
   for v in with without; do
-    cp $M/demo/*_test.go $W/$v/$DEMO_DIR/ 2>/dev/null
+    mkdir -p $W/$v/$DEMO_DIR; cp $M/demo/*_test.go $W/$v/$DEMO_DIR/ 2>/dev/null
     ( cd $W/$v/$DEMO_DIR && go test . -run "${DEMO_RUN:-Mut}" -count=1 >$W/demo-$v.out 2>&1 ) && echo "MUT demo $v patch: PASS" || echo "MUT demo $v patch: FAIL"
     rm -f $W/$v/$DEMO_DIR/$(basename $M/demo/*_test.go)
   done
